@@ -446,7 +446,21 @@ def r1_5(ctx, rc):
                                                       'top_sub')):
         F, sg = _builder_graph(ctx, fname)
         lookups = [d.qualname for d, k in G.top.items() if k == kind]
-        starts = [x.id for x in sg.nodes if Q.is_done(x, lookups)]
+        acting = [d.qualname for d in G.acting if d.qualname in lookups]
+        if acting:
+            # the lookup also acts on its decision (it was inlined into the
+            # function that registers the record): start where it begins
+            starts = [x.id for x in sg.nodes if Q.is_call(x, acting)]
+            lookups = lookups + [R.cache + '.get_file',
+                                 R.cache + '.get_subbuild']
+        else:
+            starts = [x.id for x in sg.nodes if Q.is_done(x, lookups)]
+        if not starts and F in G.acting:
+            # the decision is taken inline: every normal return of the
+            # procedure is covered
+            starts = [sg.entry]
+            lookups = lookups + [R.cache + '.get_file',
+                                 R.cache + '.get_subbuild']
         if not starts:
             raise AnalysisError('lookup not found in ' + F.qualname)
         ends = lambda x: x.id in sg.normal_exits()
